@@ -106,6 +106,15 @@ func newC09Run(p *Prog) *c09Run {
 		r.written.WriteString(s)
 		return []Val{&TupleV{E: []Val{int64(len(s)), nilV{}}}}, true
 	}
+	peekRest = func(st *State) string { return strings.Join(r.script[r.nread:], "") }
+	// a bufio.Reader wrapped around the scripted reader is the scripted reader (bufio.NewReader returns its
+	// argument when that already is a large enough *bufio.Reader)
+	m.Hooks["bufio.NewReader"] = func(m *Machine, st *State, call *ssa.CallCommon, args []Val) ([]Val, bool) {
+		if iv, ok := args[0].(IfaceV); ok {
+			return []Val{iv.V}, true
+		}
+		return []Val{args[0]}, true
+	}
 	installReflectModel(m)
 	r.m = m
 	r.st = initState(m, "control", "version", "dependency")
